@@ -20,10 +20,10 @@
      cfg_partial_any       (F25p, fix 7ba69a0) ANY mode: (Partial, Tuple) is
                            answered by the swapped call; a label only the pattern partial names
                            is unconstrained
-     cfg_callable_assume   (F55, hooks/fix_F55.patch) the callable arm records the coinductive
+     cfg_callable_assume   (F55, fix e7dcc7d) the callable arm records the coinductive
                            assumption too (and retracts it on failure), so recursive function types
                            terminate
-     cfg_cc_callable       (F56, hooks/fix_F56.patch; used by Narrow.v) contains_cycle descends into
+     cfg_cc_callable       (F56, fix 2bb39f1; used by Narrow.v) contains_cycle descends into
                            Callable / Process types
    Fuel: `None` = out of fuel (the Rust recursion is bounded by the assumption set; the fuel is
    only there to make the definition structurally recursive). *)
@@ -354,8 +354,8 @@ Definition legacy_cfg : rel_cfg := mk_cfg false false false false false false.
 Definition f7_cfg : rel_cfg := mk_cfg true false false false false false.
 Definition fixed_cfg : rel_cfg := mk_cfg true true false false false false.          (* /repo at 2246a47 (F7, F12 repaired) *)
 Definition partial_cfg : rel_cfg := mk_cfg true true true true false false.  (* + 2932723 (F29) and 7ba69a0 (F25p) *)
-Definition f55_cfg : rel_cfg := mk_cfg true true true true true true.        (* + hooks/fix_F55, fix_F56 (proposed) *)
-Definition current_cfg : rel_cfg := partial_cfg.                         (* = /repo today *)
+Definition f55_cfg : rel_cfg := mk_cfg true true true true true true.        (* + e7dcc7d (F55) and 2bb39f1 (F56) *)
+Definition current_cfg : rel_cfg := f55_cfg.                             (* = /repo today *)
 
 (* types.rs:204-215 / 223-234 *)
 Definition is_compatible_with (cfg : rel_cfg) (fuel : nat) (P : registry) (a b : nat) : option bool :=
